@@ -7,7 +7,7 @@
     accepts.  Knowledge soundness of the textbook protocol (paper Theorems 3-4) is TRUSTED. *)
 From Coq Require Import List Arith NArith Bool.
 From BP Require Import Base.Field Model.Verifier Model.VerifyTop Model.Spec Model.RangeSpec Proofs.SvecP Proofs.WeightP Proofs.GuardsP
-     Proofs.ClosedP Proofs.FoldP Proofs.VerifierEquivP.
+     Proofs.ClosedP Proofs.FoldP Proofs.VerifierEquivP Proofs.BitsP Proofs.RelationP.
 Import ListNotations.
 
 (** when 2^rounds = bits*m (a guard of the code), the loop s[i] = s[i - 2^log2 i] * e^2_{rounds-1-log2 i}
@@ -89,3 +89,17 @@ Proof.
   - rewrite (fold_Hs_msm K Kok M Mok) by exact LH. now rewrite (hcoef_s_vector K Kok es Hnz).
 Qed.
 Print Assumptions C02_folded_generators.
+
+(** the relation the protocol enforces on the committed vector gives the range statement over the
+    integers (n <= 64): booleans a_i with sum a_i 2^i = v - p imply v - p < 2^bits, given that
+    Scalar::from is injective on u64 (true of the Ristretto scalar field, l > 2^64; a hypothesis because
+    the abstract field does not expose its characteristic) *)
+Theorem C02_relation_implies_range : forall (K : Fld), FldOk K ->
+  (forall a b : N, (a < 2 ^ 64)%N -> (b < 2 ^ 64)%N -> fofN K a = fofN K b -> a = b) ->
+  forall (bits : nat) (aL : list K) (v p : N),
+  bits <= 64 -> length aL = bits -> Forall (fun c => fmul K c (fsub K c (f1 K)) = f0 K) aL ->
+  (v < 2 ^ 64)%N -> (p <= v)%N ->
+  dot K aL (map (fun i => fpow K (two K) i) (seq 0 bits)) = fsub K (fofN K v) (fofN K p) ->
+  (v - p < 2 ^ N.of_nat bits)%N.
+Proof. exact relation_implies_promise_bound. Qed.
+Print Assumptions C02_relation_implies_range.
